@@ -23,7 +23,7 @@ RULE = (
 )
 BOUNDS = {
     "quick": "15 fixtures (2 of them non-conformant base streams); regions: each parse-info block (9 bytes after the prefix), one pair of adjacent blocks on 4 fixtures, every 2-byte window over the sequence header of 2 fixtures, 2 seeded 2-byte windows per picture/fragment unit (picture number, transform parameters, first slice bytes), padding payload, the 4 prefix bytes, stream prefix of 12 bytes, truncation anywhere; declared sizes <= dec.RESOURCE_BOUNDS",
-    "thorough": "21 fixtures; all pairs of adjacent parse-info blocks, every 2-byte window over the first sequence header and over the first 14-16 bytes of every picture/fragment unit, stream prefix of 14 bytes",
+    "thorough": "21 fixtures; all pairs of adjacent parse-info blocks, every 2-byte window over the first sequence header of 6 fixtures and over the first 14-16 bytes of every picture/fragment unit of all fixtures, stream prefix of 14 bytes",
 }
 OUTSIDE = "regions larger than the bound; streams declaring sizes above the resource bounds (counted as out_of_scope paths)"
 ASSUMPTIONS = [
@@ -58,7 +58,7 @@ def _regions_for(name, meta, data, tier, rnd):
         body = off + 13
         end = off + ln
         if code == 0x00:  # sequence header: every 2-byte window (first header of the stream only)
-            if seen_header or (quick and name not in HEADER_FIXTURES):
+            if seen_header or name not in (HEADER_FIXTURES if quick else HEADER_FIXTURES_T):
                 continue
             seen_header = True
             starts = list(range(body, end - win + 1))
@@ -81,6 +81,7 @@ def _regions_for(name, meta, data, tier, rnd):
 
 PAIR_FIXTURES = ["hq_min", "hq_frag", "hq_padaux_payload", "two_sequences"]
 HEADER_FIXTURES = ["hq_min", "hq_asym"]
+HEADER_FIXTURES_T = ["hq_min", "hq_asym", "ld_min", "hq_fields", "hq_level1", "hq_frag"]
 QUICK_FIXTURES = ["hq_min", "hq_frag", "ld_min", "ld_frag", "hq_fields", "hq_asym", "hq_padaux_payload", "hq_2headers", "hq_level1", "hq_level66", "two_sequences", "hq_tiny_lossless", "neg_pic_then_fragslice", "neg_frag_then_pic", "hq_asym_then_sym"]
 
 
